@@ -454,6 +454,16 @@ def batch_has_vector_output(engine, rows) -> bool:
     return any(np.ndim(ov.value) >= 1 and np.size(ov.value) == len(rows) for ov in e.output_variables)
 
 
+def value_matrix(variables) -> np.ndarray:
+    """the values the variables hold after an export, one column per variable, one row per grid point -- read from the
+    variables themselves (0-d values broadcast), not through Engine.input_values / Engine.output_values"""
+    if not variables:
+        return np.zeros((0, 0))
+    cols = [np.atleast_1d(np.asarray(var.value, dtype=float)).ravel() for var in variables]
+    k = max(len(c) for c in cols)
+    return np.column_stack([c if len(c) == k else np.full(k, c[-1]) for c in cols])
+
+
 def close_printed(token: str, y: float, d: int) -> bool:
     try:
         t = float(token)
@@ -567,8 +577,8 @@ def text_part(ctx, fl, verdict, stats):
         ok, text = export_call(verdict, stats, f"FldExporter(...).to_string_from_scope(engine, values={v}, scope={'AllVariables' if is_all else 'EachVariable'}) in {what}", replay, do_export)
         if not ok:
             continue
-        ins = np.array(engine.input_values, dtype=float)
-        outs = np.array(engine.output_values, dtype=float)
+        ins = value_matrix(ivs)
+        outs = value_matrix(ovs)
         p = int(round(pow(v, 1.0 / n)))
         stats["text_cases"] += 1
         stats["keys"].add(("text", engine.name, n, is_all, v, sep, hdr, xi, xo, d, tuple(flags), text))
@@ -765,8 +775,8 @@ def reader_part(ctx, fl, verdict, stats):
             verdict.add_violation("fld:reader-crash", f"{what}: {msg}", replay)
         ins = outs = np.zeros((0, 0))
         if err is None:
-            ins = np.array(engine.input_values, dtype=float)
-            outs = np.array(engine.output_values, dtype=float)
+            ins = value_matrix(ivs)
+            outs = value_matrix(ovs)
             stats["reader_rows"] += len(ins)
         if should_work and err is None:
             lines = got.split("\n")
@@ -826,6 +836,12 @@ def reader_part(ctx, fl, verdict, stats):
 # --------------------------------------------------------------------------- (d) the engine pipeline (C18b)
 ENGINE_PRELUDE = r"""From VF Require Import GenNorm GenHedge GenTerm Cascade Engine Observe NpLite Batch Ops EngineF FldEngine.
 Definition fmat_feq (a b : list (list float)) : bool := list_eqb (list_eqb feq) a b.
+(* number format for values computed by the ENGINE model: its zeros are tied to the implementation up to their sign only
+   (Observe.feq, as in C01/C02), so an exact-bits miss falls back to a match up to the sign of zero *)
+Fixpoint flook_feq (tbl : list (float * string)) (x : float) : string :=
+  match tbl with [] => "?"%string | (k, s) :: tl => if feq k x then s else flook_feq tl x end.
+Definition flook2 (tbl : list (float * string)) (x : float) : string :=
+  if existsb (fun ks => fsame (fst ks) x) tbl then flook tbl x else flook_feq tbl x.
 Definition engine_check (c : engine float * (string * bool * bool * bool) * (bool * Z * Z * list bool) * oracle
                              * list (float * string) * (list (list float) + nat) * result string) : bool :=
   let '(e, x, (sc, v, p, act), tbl, ftbl, expect_m, expect_t) := c in
@@ -837,7 +853,7 @@ Definition engine_check (c : engine float * (string * bool * bool * bool) * (boo
       | Err er, inr c => Nat.eqb (err_code er) c
       | _, _ => false
       end
-      && res_eq (@write_engine float NB (flook ftbl) (mk_x x) e ins) expect_t
+      && res_eq (@write_engine float NB (flook2 ftbl) (mk_x x) e ins) expect_t
   | Err _ => false
   end.
 """
@@ -1046,7 +1062,7 @@ def run(ctx, build, verdict, ev):
     if mism:
         verdict.add_broken("correspondence", f"FldExporter {mism[0][0]}", f"model and implementation differ on {len(mism)} cases, first: {mism[:4]}")
     c = ev["coverage"]
-    c["evaluations"] = stats["shape_cases"] + stats["edge_cases"] + stats["text_cases"] + stats["reader_cases"] + stats["engine_cases"]
+    c["evaluations"] = stats["shape_cases"] + stats["shape_variant_cases"] + stats["edge_cases"] + stats["text_cases"] + stats["reader_cases"] + stats["engine_cases"]
     c["distinct_nontrivial"] = len(stats["keys"])
     c["rule"] = ("(a) every v in %s x n = 1..4 x both scopes (EachVariable only while v^n <= %d; %d combinations skipped as too large to export) on a real engine "
                  "with n inputs: rows, values per input, first/last row, sequential checksum of the matrix; (b) random engine (shipped examples / generated FLL, 1-4 inputs) x v x scope x "
@@ -1061,7 +1077,7 @@ def run(ctx, build, verdict, ev):
     ev["assumptions"] += [
         "int(round(pow(v, 1.0/n))) (libm pow + rounding) is taken from Python by evaluating the expression of exporter.py; it is only the starting point of the integer correction loops, which the model runs itself (C18_all_variables_k holds for every starting point); the model's row count is compared with the real export",
         "number formatting: the model's fmt is a table value -> '%.<d>f' % value built with Python's formatting for the values the implementation produced; the model must produce bit-identical values to find them",
-        "the engine's outputs for the batch are taken from the implementation (engine.output_values after the export) and handed to the model only if its input matrix is bit-identical; the engine itself is C01/C02",
+        "the engine's outputs for the batch are taken from the implementation (the output variables' values after the export) and handed to the model only if its input matrix is bit-identical; the engine itself is C01/C02",
         "reader contents are ASCII; separators contain no '%' (numpy.savetxt builds a %-format out of the separator)",
     ]
 
